@@ -955,3 +955,52 @@ def jacobian_does_not_remember_the_first_evaluation_point_native(B):
                 B.fail("the Jacobian depends on where it was evaluated first", {"order": order, "at": which, "row": r, "column": c, "jacobian": float(J[r, c]), "finite_difference": float(fd[r, c])})
                 return
     return {"exhaustive_within_bound": True}
+
+
+# ------------------------------------------------------------------------------ A and B of the unsolved system: every occurrence in exactly one of them
+LAGS_SRC = r"""
+!transition_variables
+    x, z
+!transition_shocks
+    ex
+!parameters
+    a
+!transition_equations
+    x = a*x[-1] + 0.2*z[-2] + 0.1*z[-1] + x[+1]/4 + ex;
+    z = 0.5*z[-1] + x[-3];
+"""
+
+
+@contract("C02", targets=["irispie.fords.descriptors:SystemMap.__init__", "irispie.aldi.maps:ArrayMap.static", "irispie.aldi.maps:ArrayMap.remove_nones",
+                          "irispie.aldi.maps:create_eid_to_rhs_offset"], instances=[("deep lags",), ("leads and a log-variable",)], cross=0, opts={"max_paths": 400})
+def every_occurrence_has_one_cell_in_A_or_B(K, which):
+    """Unsolved system  A xi(t) + B xi(t-1) + ... = 0  with xi the vector of transition variables at the shifts the model
+    needs: the derivative with respect to an occurrence x[s] in a transition equation is placed in A at the column of x[s] when
+    x[s] is an element of xi, and otherwise in B at the column of x[s+1] (whose one-period lag it is) - in exactly ONE of the two,
+    also for the intermediate lags of a variable that occurs with a deeper lag."""
+    import irispie as ir
+    from irispie.fords import descriptors as DSC
+    m = ir.Simultaneous.from_string({"deep lags": LAGS_SRC, "leads and a log-variable": STACKED_SRC}[which])
+    vecs = m._invariant.dynamic_descriptor.system_vectors
+    sm = K.call(DSC.SystemMap, K.lift(vecs))
+    xi = list(vecs.transition_variables)
+    rows = {e: i for i, e in enumerate(vecs.transition_eids)}
+    offset, acc = {}, 0
+    for e in list(vecs.transition_eids) + list(vecs.measurement_eids):
+        offset[e] = acc
+        acc += len(vecs.eid_to_wrt_tokens[e])
+
+    def cells(mp):
+        lhs, rhs = K.attr(mp, "lhs"), K.attr(mp, "rhs")
+        return sorted(zip([int(v) for v in K.items(lhs[0])], [int(v) for v in K.items(lhs[1])], [int(v) for v in K.items(rhs[0])]))
+    A, B = cells(K.attr(sm, "A")), cells(K.attr(sm, "B"))
+    want_A, want_B = [], []
+    for e in vecs.transition_eids:
+        for k, tok in enumerate(vecs.eid_to_wrt_tokens[e]):
+            if tok in xi:
+                want_A.append((rows[e], xi.index(tok), offset[e] + k))
+            elif tok.shifted(+1) in xi:
+                want_B.append((rows[e], xi.index(tok.shifted(+1)), offset[e] + k))
+    K.ensure("A holds the occurrences that are elements of the vector", A == sorted(want_A))
+    K.ensure("B holds the others, at the column of the element they are the lag of", B == sorted(want_B))
+    K.ensure("no occurrence is in both", not (set((r, d) for r, _, d in A) & set((r, d) for r, _, d in B)))
